@@ -6,6 +6,7 @@ import (
 	"encoding/xml"
 	"errors"
 	"fmt"
+	"io"
 	"net/http"
 
 	restful "github.com/emicklei/go-restful/v3"
@@ -215,7 +216,13 @@ func c15Exec(sc *c15Scen, mode, failAt int) *c15Obs {
 			}
 			switch call.Kind {
 			case "Write":
-				_, err = resp.Write(sim.PayloadBytes("w", call.N))
+				if call.N%3 == 1 {
+					// the same bytes the way io.Copy delivers them from a plain reader (a file): through the
+					// destination's io.ReaderFrom if it has one, through Write otherwise
+					_, err = io.Copy(resp, onlyReader{bytes.NewReader(sim.PayloadBytes("w", call.N))})
+				} else {
+					_, err = resp.Write(sim.PayloadBytes("w", call.N))
+				}
 			case "WriteHeader":
 				resp.WriteHeader(call.Status)
 			case "WriteEntity":
